@@ -62,7 +62,9 @@ func Walk(v Visitor, node ast.Node) {
 		}
 
 	case *ast.Break:
-		Walk(v, n.Label)
+		if n.Label != nil {
+			Walk(v, n.Label)
+		}
 
 	case *ast.Call:
 		for _, arg := range n.Args {
@@ -99,7 +101,9 @@ func Walk(v Visitor, node ast.Node) {
 		}
 
 	case *ast.Continue:
-		Walk(v, n.Label)
+		if n.Label != nil {
+			Walk(v, n.Label)
+		}
 
 	case *ast.Defer:
 		Walk(v, n.Call)
